@@ -472,6 +472,33 @@ Fixpoint wf_keys (n : cnode) : bool :=
          end) es
   end.
 
+(* all sort keys are pairwise distinct: the keys of every mapping, and the sort keys of the elements
+   of every whitelisted list — then the comparison is total on the data and the result of sorting
+   does not depend on the algorithm *)
+Fixpoint distinct_sortkeys (kind api : string) (path : string) (n : cnode) {struct n} : bool :=
+  match n with
+  | CScalar _ _ | CAlias _ _ => true
+  | CMap _ kvs =>
+      nodup_strs (key_values kvs) &&
+      (fix go (l : list (cnode * cnode)) : bool :=
+         match l with
+         | [] => true
+         | kv :: t =>
+             distinct_sortkeys kind api path (fst kv) &&
+             distinct_sortkeys kind api (path ++ "." ++ cvalue (fst kv)) (snd kv) && go t
+         end) kvs
+  | CSeq _ es =>
+      match sort_field kind api path with
+      | Some f => match seq_keys f es with Ok K => nodup_strs K | _ => true end
+      | None => true
+      end &&
+      (fix go (l : list cnode) : bool :=
+         match l with
+         | [] => true
+         | e :: t => distinct_sortkeys kind api path e && go t
+         end) es
+  end.
+
 (* ---------- induction principle for the nested inductive ---------- *)
 Section CnodeInd.
   Variable P : cnode -> Prop.
